@@ -301,6 +301,7 @@ type Assignment struct {
 	Model   map[string]string `json:"model"`
 	Chooses map[string]int    `json:"chooses"`
 	Faults  []string          `json:"faults,omitempty"`
+	Crashes []string          `json:"crashes,omitempty"`
 	Tag     string            `json:"tag,omitempty"`
 }
 
